@@ -481,7 +481,65 @@ def run_c04(ctx, rng, job):
 # =============================================================================
 # C07
 
+def rebuilt_base(ctx, rng):
+    """A verifying registry below a base that is rebuilt: the base's change counter must not come back to a value the
+    lower registry has recorded for other contents.  History: changes in the base, lookups below (warm), ``rebuild()`` of
+    the base, then - with no lookup in between - as many further changes as bring a counter that restarted at
+    ``rebuild()`` back to where it was; every entry point below must show them."""
+    from zope.interface.adapter import VerifyingAdapterRegistry as V
+    mod = util.fresh_module()
+    IR, IP = util.mkiface('IR', module=mod), util.mkiface('IP', module=mod)
+
+    class K:
+        pass
+    classImplements(K, IR)
+    ob = K()
+    base = V()
+    sub = V((base,))
+    vals = [Val(i, i, True) for i in range(12)]
+    n0 = rng.randint(1, 4)
+    for i in range(n0):                      # n0 changes, net content: one adapter, one subscriber
+        base.register([IR], IP, '', vals[i])
+    base.subscribe([IR], IP, vals[5])
+    g0 = getattr(base, '_generation', None)
+
+    def snapshot(r):
+        return (r.lookup([IR], IP, ''), r.lookup1(IR, IP, ''), tuple(r.lookupAll([IR], IP)), tuple(r.subscriptions([IR], IP)),
+                tuple(r.names([IR], IP)), r.lookup([IR], IP, 'late'))
+    snapshot(sub)                            # warm, generations recorded
+    base.rebuild()
+    g1 = getattr(base, '_generation', None)
+    if not (isinstance(g0, int) and isinstance(g1, int)):
+        return
+    ctx.count('rebuilt_base_histories')
+    # the changes that follow, chosen so that a restarted counter passes g0 again at every step
+    steps = [lambda: base.register([IR], IP, '', vals[6]), lambda: base.subscribe([IR], IP, vals[7]),
+             lambda: base.register([IR], IP, 'late', vals[8]), lambda: base.unsubscribe([IR], IP, vals[5]),
+             lambda: base.register([IR], IP, '', vals[9]), lambda: base.subscribe([IR], IP, vals[10])]
+    done = 0
+    for k, st in enumerate(steps):
+        st()
+        done += 1
+        if rng.random() < 0.5 and done < len(steps):
+            continue                          # several changes pile up before the next question
+        fresh = V()
+        for a in base.allRegistrations():
+            fresh.register(*a)
+        for a in base.allSubscriptions():
+            fresh.subscribe(*a)
+        exp = snapshot(V((fresh,)))
+        got = snapshot(sub)
+        ctx.ev()
+        ctx.count('rebuilt_base_probes')
+        if got != exp:
+            ctx.violation('stale-below-a-rebuilt-base', {'changes_before_rebuild': n0 + 1, 'changes_after_rebuild': done,
+                                                         'got': repr(got)[:300], 'expected': repr(exp)[:300]}, abort=False)
+            return
+
+
 def run_c07(ctx, rng, job):
+    if ctx.case % 4 == 0:
+        rebuilt_base(ctx, rng)
     w = RW(ctx, rng, job['tier'], with_objs=True, maxregs=3)
     big = job['tier'] == 'thorough'
     shapes = set()
@@ -661,6 +719,8 @@ def detached_entry_points(ctx, rng):
 def run_c08(ctx, rng, job):
     if ctx.case == 0:
         detached_entry_points(ctx, rng)
+    if ctx.case % 4 == 0:
+        rebuilt_base(ctx, rng)
     w = RW(ctx, rng, job['tier'], with_objs=True, maxregs=3)
     big = job['tier'] == 'thorough'
     # super proxies as adapted objects
@@ -868,6 +928,8 @@ def run_c08(ctx, rng, job):
 # C09
 
 def run_c09(ctx, rng, job):
+    if ctx.case % 4 == 0:
+        rebuilt_base(ctx, rng)          # "calling rebuild() yields a registry that answers every lookup identically" - also below it
     w = RW(ctx, rng, job['tier'], with_objs=True, maxregs=2)
     big = job['tier'] == 'thorough'
     keys = {i: [] for i in range(len(w.regs))}
@@ -1380,6 +1442,8 @@ def run_c05(ctx, rng, job):
 # C06  registries consult exactly their current base chain
 
 def run_c06(ctx, rng, job):
+    if ctx.case % 4 == 0:
+        rebuilt_base(ctx, rng)
     w = RW(ctx, rng, job['tier'], with_objs=False, maxregs=5, chainy=True)
     big = job['tier'] == 'thorough'
     n = len(w.regs)
